@@ -49,8 +49,8 @@ Templates == FlatTemplates \cup DeepTemplates
 \* ------------------------------------------------------------------ declaration orders
 Perms(n) == {p \in [1..n -> 1..n] : \A i, j \in 1..n : i # j => p[i] # p[j]}
 FewPerms(n) == {[i \in 1..n |-> i], [i \in 1..n |-> n + 1 - i], [i \in 1..n |-> (i % n) + 1], [i \in 1..n |-> ((i + 1) % n) + 1]}
-DeclPerms(t) == LET n == Len(t.decl) IN
-                IF t.deep THEN (IF DeepFull THEN Perms(n) ELSE {[i \in 1..n |-> i], [i \in 1..n |-> n + 1 - i], [i \in 1..n |-> (i % n) + 1]})
+DeclPerms(t, es) == LET n == Len(t.decl) IN
+                IF t.deep THEN (IF DeepFull /\ Len(es) <= 2 THEN Perms(n) ELSE {[i \in 1..n |-> i], [i \in 1..n |-> n + 1 - i], [i \in 1..n |-> (i % n) + 1]})
                 ELSE IF n <= FullPermsUpTo THEN Perms(n) ELSE FewPerms(n)
 IdPerm(n) == [i \in 1..n |-> i]
 Permuted(t, p) == [t EXCEPT !.decl = [i \in DOMAIN t.decl |-> t.decl[p[i]]]]
@@ -65,7 +65,8 @@ EdgeSeqs(t)  == IF t.deep
                      IN {K(m) : m \in 0..(2 ^ Len(CandSeq(t)) - 1)}
 Rev(s)      == [i \in DOMAIN s |-> s[Len(s) + 1 - i]]
 Rot(s)      == LET h == Len(s) \div 2 IN SubSeq(s, h + 1, Len(s)) \o SubSeq(s, 1, h)
-OrdersOf(t, s) == IF t.deep THEN {s} ELSE {s, Rev(s), Rot(s)}
+Big(t)         == ~t.deep /\ Len(t.decl) > FullPermsUpTo
+OrdersOf(t, s) == IF t.deep THEN {s} ELSE IF Big(t) THEN (IF Cyclic(EdgeSet(s)) THEN {s} ELSE {s, Rev(s)}) ELSE {s, Rev(s), Rot(s)}
 
 \* ------------------------------------------------------------------ links of an edge sequence, by style
 \* styles 0..3 rotate "whole object / attribute" and "no function / function" over the links; style 4 merges the
@@ -83,7 +84,16 @@ Merged(t, es) ==
         IN [srcs |-> [j \in DOMAIN ks |-> [obj |-> es[ks[j]][1], attr |-> IF (j + n) % 2 = 0 THEN "" ELSE "v"]],
             tobj |-> tgt, param |-> "pm", fn |-> TRUE]]
 LinksOf(t, es, style) == IF style = 4 THEN Merged(t, es) ELSE [k \in DOMAIN es |-> StyleLink(t, es, k, style)]
-Styles(t) == IF t.deep THEN {0, 3} ELSE IF Len(t.decl) <= AllKindsUpTo THEN {0, 1, 2, 3, 4} ELSE IF Len(t.decl) <= FullPermsUpTo THEN {0, 3, 4} ELSE {1, 2, 4}
+Styles(t, es) == IF t.deep THEN (IF Len(es) >= 3 THEN {0} ELSE {0, 3})
+                 ELSE IF Len(t.decl) <= AllKindsUpTo THEN {0, 1, 2, 3, 4}
+                 ELSE IF Len(t.decl) <= FullPermsUpTo THEN {0, 3, 4}
+                 ELSE IF Cyclic(EdgeSet(es)) THEN {1} ELSE {1, 4}
+\* the largest families are thinned: a rejected link set of a big flat template is tried with one kind vector only (the
+\* kinds cannot matter for the rejection), deep link sets of three links with equal kinds of s and o and three orders
+AllGroups(t)   == \A i \in DOMAIN t.decl : t.decl[i].kind = G
+EqualKinds(t)  == \A i, j \in DOMAIN t.decl : (t.decl[i].cparams = << >> /\ t.decl[j].cparams = << >> /\ t.decl[i].dest # <<"m">> /\ t.decl[j].dest # <<"m">>) => t.decl[i].kind = t.decl[j].kind
+Thinned(t, es) == /\ (Big(t) /\ Cyclic(EdgeSet(es))) => AllGroups(t)
+                  /\ (t.deep /\ Len(es) >= 3) => EqualKinds(t)
 
 \* a plain argument can be the target of one link only (the second link_arguments call finds no action, :145-148)
 PlainOnce(t, es, style) == style = 4 \/ \A i, j \in DOMAIN es : (i # j /\ es[i][2] \in t.plains) => es[i][2] # es[j][2]
@@ -99,9 +109,10 @@ InitCase == phase = "seed" /\ tpl \in Templates /\ shape = NoShape /\ Idle
 \* (the run of the algorithm is computed once, when the case state is created: results / comps / mach hold
 \* AlgAddLinks, the plan and the final machine state of the shape)
 NextCase == /\ phase = "seed" /\ phase' = "case" /\ UNCHANGED <<tpl, pc, ki, order>>
-            /\ \E es0 \in EdgeSeqs(tpl) : \E es \in OrdersOf(tpl, es0) : \E style \in Styles(tpl) : \E p \in DeclPerms(tpl) :
+            /\ \E es0 \in EdgeSeqs(tpl) : \E es \in OrdersOf(tpl, es0) : \E style \in Styles(tpl, es) : \E p \in DeclPerms(tpl, es) :
                  \* the declaration order cannot matter for a rejected link set: one order is enough there
                  /\ (Cyclic(EdgeSet(es)) => p = IdPerm(Len(tpl.decl)))
+                 /\ Thinned(tpl, es)
                  /\ PlainOnce(tpl, es, style)
                  /\ shape' = MkShape(tpl, p, es, style)
             /\ results' = AlgAddLinks(shape', 1)
@@ -150,6 +161,19 @@ UnreachableExact == (Case /\ Acc /\ Feasible(shape) /\ ~Mis) => (Unr <=> mach.fa
 PlanSane == (Case /\ Acc) =>
               /\ IsPermOf(comps, CompDests(shape))
               /\ \A c1, c2 \in CompDests(shape) : Inside(c2, c1) => Index(comps, c2) < Index(comps, c1)
+\* The repair proposed for the first finding, checked on the same instance (configuration MC_LinksInst_repair, not
+\* part of ./check): with it no accepted feasible shape is misordered, cycles through constructor arguments are
+\* rejected when the link is added, and the only remaining failure is the second deviation.
+RepairRefinesRef == Case =>
+  LET add == AlgAddLinksR(shape, 1, TRUE) IN
+  /\ RefAddOK(shape, add)
+  /\ (AllAccepted(shape, add) => Feasible(shape))
+  /\ (AllAccepted(shape, add) =>
+        LET o    == InstantiationOrderR(shape, shape.links, TRUE).order
+            plan == PlannedComponents(shape, o)
+            m    == AlgInstantiateR(shape, TRUE)
+        IN /\ MisorderedLinksP(shape, plan) = {}
+           /\ (UnreachableLinksP(shape, plan) = {} => (~m.failed /\ RefInstOK(shape, m.log) /\ RefPlainOK(shape, FinalPlain(shape, m)))))
 \* the graph node computed by the algorithm is the receiving object of the Ref vocabulary
 TargetNodeIsObject == Case => \A i \in DOMAIN shape.links : TargetNode(TargetKey(shape, shape.links[i])) = shape.links[i].tobj
 ShapeSane == Case => /\ \A i \in DOMAIN shape.links : shape.links[i].tobj \in shape.objs \cup shape.plains
@@ -173,8 +197,9 @@ ASSUME PrintT(<<"SEEDS", Cardinality(Templates)>>)
 \* ------------------------------------------------------------------ machine mode
 \* pc: "add" (link_arguments calls) -> "plan" -> "apply"/"build" per component -> "rest" -> "done" | "rejected" | "failed"
 InitMachine == /\ phase = "case" /\ tpl \in Templates
-               /\ \E es0 \in EdgeSeqs(tpl) : \E style \in Styles(tpl) : \E p \in DeclPerms(tpl) :
+               /\ \E es0 \in EdgeSeqs(tpl) : \E style \in Styles(tpl, es0) : \E p \in DeclPerms(tpl, es0) :
                     /\ (Cyclic(EdgeSet(es0)) => p = IdPerm(Len(tpl.decl)))
+                    /\ Thinned(tpl, es0)
                     /\ PlainOnce(tpl, es0, style)
                     /\ shape = MkShape(tpl, p, es0, style)
                /\ pc = "add" /\ ki = 1 /\ results = << >> /\ order = << >> /\ comps = << >> /\ mach = MachineInit
